@@ -1,26 +1,22 @@
 #!/usr/bin/env python3
 """dev helper: build the Verus file for one generated.rs and run verus.
-usage: dev.py <generated.rs> <out.rs> [--annotate] [verus args...]"""
+usage: dev.py <generated.rs> <out.rs> [--skeleton-only] [verus args...]"""
 import sys, os, subprocess, json, re
 sys.path.insert(0, os.path.dirname(os.path.abspath(__file__)))
-import assemble
+import assemble, annotate
 from extract import Lost
 gen, out = sys.argv[1], sys.argv[2]
 rest = sys.argv[3:]
-ann = None
-if "--annotate" in rest:
-    rest.remove("--annotate")
-    import annotate
-    ann = annotate.annotate
+skel = "--skeleton-only" in rest
+if skel:
+    rest.remove("--skeleton-only")
 sc = [assemble.read(os.path.join(assemble.CONTRACTS, "skeleton.vspec"))]
 rep = {}
 try:
-    txt = assemble.build(open(gen).read(), sc, annotate=ann, report=rep)
+    txt = assemble.build(open(gen).read(), sc, annotate=lambda ix, ed, r: annotate.annotate(ix, ed, r, skeleton_only=skel), report=rep)
 except Lost as e:
     print("LOST:", e); sys.exit(2)
-if "--skeleton-only" in rest:
-    rest.remove("--skeleton-only")
-    txt = re.sub(r"(?m)^(\s*)fn (rule_\w+)(<|\()", r"\1#[verifier::external_body] fn \2\3", txt)
 open(out, "w").write(txt)
+json.dump(rep, open(out + ".report.json", "w"), indent=1, default=str)
 r = subprocess.run(["verus", out, "--triggers-mode", "silent"] + rest)
 sys.exit(r.returncode)
